@@ -12,4 +12,5 @@ INVARIANT Connected
 INVARIANT HasRegion
 INVARIANT CacheCoherent
 PROPERTY SeedProgress
+PROPERTY LocalizeRefinesProvedStep
 CHECK_DEADLOCK FALSE
